@@ -15,8 +15,8 @@ from vlib import prints, write_ndjson, read_ndjson, MachineryError
 
 def sig_of(v):
     s = v["sc"]
-    return "C16:%s:shape=%s:ha=%s:hb=%s:up=%s:rules=%s:exempt=%s" % (
-        v["prop"], s["shape"], s["ha"], s["hb"], s["up"], s["rules"], s["exempt"])
+    return "C16:%s:shape=%s:wrap=%s:ha=%s:hb=%s:up=%s:rules=%s:exempt=%s" % (
+        v["prop"], s["shape"], s["wrap"], s["ha"], s["hb"], s["up"], s["rules"], s["exempt"])
 
 
 def judge(ctx, trace, chunk=20000):
@@ -53,13 +53,15 @@ def run(ctx, cases_override=None):
             cases = allc
         else:
             rnd = random.Random(ctx.seed)
-            # a sample stratified by selector shape, so that every shape sees every kind of history
-            cases = []
+            # every scenario in which the metric has no sample at all (the P2 stratum: 2430 scenarios), plus a sample of
+            # the rest stratified by selector shape, so that every shape sees every kind of history
+            cases = [c for c in allc if c["han"] == "never" and c["hbn"] == "never"]
             by = {}
             for c in allc:
-                by.setdefault(c["shape"], []).append(c)
+                if not (c["han"] == "never" and c["hbn"] == "never"):
+                    by.setdefault(c["shape"], []).append(c)
             for sh in sorted(by):
-                cases += rnd.sample(by[sh], min(len(by[sh]), 250))
+                cases += rnd.sample(by[sh], min(len(by[sh]), 200))
         mcs = [mc]
     else:
         cases, total, mcs = cases_override, 0, []
